@@ -5,9 +5,11 @@ import CharsetProof.Props.C13
 import CharsetProof.Props.C13f
 import CharsetProof.Props.C13g
 import CharsetProof.Props.C13h
+import CharsetProof.Props.Full2
 open Charset
 #print axioms C13_chaos_is_mess_ratio_full
 #print axioms C13_chaos_is_mess_ratio_full_all_sizes
+#print axioms detection_full_languages
 #print axioms chaosOfText_full_eq
 #print axioms meanRatio_single
 #print axioms C13_chaos_of_text_all_sizes
